@@ -3,6 +3,7 @@
 properties.jsonl (everything else goes to not_applicable with its reason)."""
 import json, subprocess
 claims = json.load(open('/verif/tools/claims.json'))
+pconf = json.load(open('/verif/props.json'))
 props = [json.loads(l) for l in open('/verif/properties.jsonl')]
 hooks = subprocess.run(['git','-C','/repo','log','--format=%h %s'],capture_output=True,text=True).stdout.splitlines()
 hook_commits = [l.split()[0] for l in hooks if l.split(' ',1)[1].startswith('verif hook')]
@@ -19,12 +20,20 @@ for p in props:
     pid = p['id']
     if pid in claims['checks']:
         c = claims['checks'][pid]
+        tech = "contract-based deductive verification: contracts on the real functions, VCs generated over go/ssa, discharged by z3/cvc5"
+        note = c['note']
+        sis = pconf.get(pid, {}).get('bounded_standins') or []
+        if sis:
+            q = [s['name'] for s in sis if s.get('quick')]
+            th = [s['name'] for s in sis]
+            tech += "; plus bounded stand-ins on the real code for what sits inside dependencies or over histories (labelled bounded, never counted as proved; also used as the search for a failing input when an obligation fails): quick runs " + (', '.join(q) or 'none') + "; thorough runs " + ', '.join(th)
+            note += " Bounded stand-ins: " + ' | '.join(f"{s['name']}: {s['bound']}" for s in sis)
         m['checks'].append({
           "property_id": pid, "quick_cmd": f"./check {pid} quick", "thorough_cmd": f"./check {pid} thorough",
           "evidence_file": f"/verif/evidence/{pid}.json", "replay_cmd_template": "./check --replay {path}",
-          "engine": "govc", "technique": "contract-based deductive verification: contracts on the real functions, VCs generated over go/ssa, discharged by z3/cvc5",
+          "engine": "govc", "technique": tech,
           "level_claimed": {"category": "proof", "text": c['text'], "design_ref": c.get('design_ref', f"DESIGN.md §9 {pid}")},
-          "level_note": c['note']})
+          "level_note": note})
     else:
         m['not_applicable'].append({"property_id": pid, "reason": claims['not_applicable'].get(pid, "not brought within the verifier's reach in the time available (no check claimed)")})
 json.dump(m, open('/verif/MANIFEST.json','w'), indent=1)
